@@ -37,7 +37,8 @@
           All history theorems below ([C12_conn_*] over [mcexec]/[mcrun]) quantify over these operations too. *)
 From MptV Require Import Base.Mem C12.ReplyModel C12.ReplySpec C12.IdProofs
   C12.ReplyInv C12.ReplyStep C12.ReplyProps C12.ReplyRefine
-  C12.ConnModel C12.ConnSim C12.ConnKeep C12.ConnSpecProps C12.ConnWait C12.ConnReserve C12.ConnProofs C12.ConnBytes C12.ConnObj.
+  C12.ConnModel C12.ConnSim C12.ConnKeep C12.ConnSpecProps C12.ConnWait C12.ConnReserve C12.ConnProofs C12.ConnBytes C12.ConnObj
+  C12.SrmModel C12.SrmProofs.
 Local Open Scope nat_scope.
 
 (* ------------------------------------------------------------------ ids *)
@@ -595,6 +596,68 @@ Example C12_ex_sync_break :
   z = 2%Z /\ wc = [(1, Some [255%N])] /\ act_ids (ctab c) = [2; 3]%N /\ length (ctab c) = 2 /\ length (csock c) + length (cload c) = 1.
 Proof. vm_compute. repeat split. Qed.
 
+(* ------------------------------------------------------------------ the stream as transport of a reply
+   (mptio/stream/stream_reply.c + stream_append.c + the data / end / delete uses of stream_push.c, AS PATCHED by
+   docs/C12_reply_rollback_active.diff, C12_reply_rollback_blocks.diff, C12_reply_id_partial.diff; SrmModel.v).
+   [wq] = the write queue as the complete messages it holds ([wfin]), the message in progress ([wcur]) and
+   MPT_STREAMFLAG(MesgActive) ([wact]); [wq_idle] = nothing in progress.  [take] / [term_ok] say how much of a push the
+   queue accepts - ANY such behaviour (any pattern of failing reallocs) is covered by the first three theorems;
+   [srm_reply_cap cap] is the instance "COBS queue of cap bytes that cannot grow". *)
+
+(* a reply is all or nothing: either exactly one complete message id ++ message is queued behind what was there, or the
+   result is negative and the queue is what it was (no partial frame, no id without message, nothing left in progress) *)
+Theorem C12_stream_reply_atomic :
+  forall (take : wq -> list byte -> nat) (term_ok : wq -> bool) (efull : Z), (efull < 0)%Z ->
+  forall q id msg r q1, wq_idle q -> id <> [] ->
+  srm_reply take term_ok efull q id msg = (r, q1) ->
+  (r = 0%Z /\ q1 = mkwq (wfin q ++ [id ++ msg_bytes msg]) [] false /\
+   exists q2, wfin q2 = wfin q /\ wcur q2 = id ++ msg_bytes msg /\ term_ok q2 = true) \/
+  ((r < 0)%Z /\ q1 = q).
+Proof. exact srm_reply_atomic. Qed.
+
+(* refused without effect while another message is being composed on the stream *)
+Theorem C12_stream_reply_busy :
+  forall take term_ok efull q id msg, wact q = true -> srm_reply take term_ok efull q id msg = (EBadArgument, q).
+Proof. exact srm_reply_busy. Qed.
+
+(* a refused reply does not block the next one *)
+Theorem C12_stream_reply_stays_idle :
+  forall take term_ok efull, (efull < 0)%Z -> forall q id msg r q1,
+  wq_idle q -> id <> [] -> srm_reply take term_ok efull q id msg = (r, q1) -> wq_idle q1.
+Proof. exact srm_reply_idle. Qed.
+
+(* queue of cap bytes: what is accepted is a complete frame that fits behind the frames already queued *)
+Theorem C12_stream_reply_accepted_fits :
+  forall cap q id msg r q1, wq_idle q -> id <> [] ->
+  srm_reply_cap cap q id msg = (r, q1) ->
+  (r = 0%Z /\ q1 = mkwq (wfin q ++ [id ++ msg_bytes msg]) [] false /\ s_fits cap (wfin q) (id ++ msg_bytes msg) = true)
+  \/ ((r < 0)%Z /\ q1 = q).
+Proof. exact srm_reply_cap_sound. Qed.
+
+(* any sequence of replies (retries included) on one stream: the queue holds exactly the accepted ones, each complete
+   and with its own id in front, in order; every result is 0 or an error *)
+Theorem C12_stream_replies_wire :
+  forall cap reqs q rs q1, wq_idle q -> Forall (fun x => fst x <> []) reqs ->
+  srm_run cap q reqs = (rs, q1) ->
+  wq_idle q1 /\ wfin q1 = wfin q ++ accepted rs reqs /\ Forall (fun r => (r <= 0)%Z) rs.
+Proof. exact srm_run_wire. Qed.
+
+(* queue of 8 bytes: a reply of 8 bytes under id 81 01 is refused after the id and 5 bytes were pushed (BadOperation, rolled
+   back); the retry with 2 bytes is queued under the same id (frame of 6 bytes); a null reply under id 81 02 (frame of 4
+   bytes) does not fit behind it: its id is pushed in part and rolled back (MissingBuffer) *)
+Example C12_ex_stream_replies :
+  srm_run 8 (mkwq [] [] false)
+    [([129; 1]%N, Some [[65; 65]%N; [65; 65; 65; 65; 65; 65]%N]); ([129; 1]%N, Some [[111; 107]%N]); ([129; 2]%N, None)]
+  = ([(-4)%Z; 0%Z; (-17)%Z], mkwq [[129; 1; 111; 107]%N] [] false).
+Proof. vm_compute. reflexivity. Qed.
+
+(* frame sizes at the block length: 253 / 254 bytes without zero *)
+Example C12_ex_frame_sizes :
+  frame_size [] = 2 /\ frame_size [0%N] = 3 /\ frame_size (repeat 1%N 253) = 255 /\ frame_size (repeat 1%N 254) = 257
+  /\ fst (srm_reply_cap 256 (mkwq [] [] false) (repeat 1%N 254) None) = EBadOperation
+  /\ fst (srm_reply_cap 257 (mkwq [] [] false) (repeat 1%N 254) None) = 0%Z.
+Proof. vm_compute. repeat split. Qed.
+
 
 Print Assumptions C12_id_roundtrip.
 Print Assumptions C12_id_accepted_when_fits.
@@ -640,3 +703,8 @@ Print Assumptions C12_conn_sync_end_keeps_ids.
 Print Assumptions C12_conn_log_is_one_message.
 Print Assumptions C12_reserve_any_limit.
 Print Assumptions C12_reserve_any_limit_table.
+Print Assumptions C12_stream_reply_atomic.
+Print Assumptions C12_stream_reply_busy.
+Print Assumptions C12_stream_reply_stays_idle.
+Print Assumptions C12_stream_reply_accepted_fits.
+Print Assumptions C12_stream_replies_wire.
